@@ -30,11 +30,11 @@ const (
 )
 
 type op struct {
-	k      opKind
-	l      int // list index
-	h, h2  int // handle indices
-	other  int // other list index
-	name   string
+	k     opKind
+	l     int // list index
+	h, h2 int // handle indices
+	other int // other list index
+	name  string
 }
 
 func alphabet(nLists, maxH int, fullB bool) []op {
